@@ -253,6 +253,52 @@ ENSURES(sz == 0 ==> sp->data.ptr == NULL)
 #endif
 ;
 
+
+/* ------------------------------------------------------------------ swap / release (C05)
+ * The two objects exchange what they refer to; the frame is the two objects themselves, so no
+ * counter moves, nothing is cleared or released, whatever the pointers are (empty, the same
+ * allocation, different allocations). */
+#ifdef VF_G_swap
+static inline void cstl_shared_ptr_swap(cstl_shared_ptr_t * const sp1, cstl_shared_ptr_t * const sp2)
+REQUIRES(FRESH(sp1, sizeof(*sp1)) && GP_OK(&sp1->data) && FRESH(sp2, sizeof(*sp2)) && GP_OK(&sp2->data))
+ASSIGNS(sp1->data.ptr, sp1->data.self, sp2->data.ptr, sp2->data.self)
+ENSURES(GP_OK(&sp1->data) && GP_OK(&sp2->data) && sp1->data.ptr == OLD(sp2->data.ptr) && sp2->data.ptr == OLD(sp1->data.ptr))
+;
+static inline void cstl_weak_ptr_swap(cstl_weak_ptr_t * const wp1, cstl_weak_ptr_t * const wp2)
+REQUIRES(FRESH(wp1, sizeof(*wp1)) && GP_OK(&wp1->data) && FRESH(wp2, sizeof(*wp2)) && GP_OK(&wp2->data))
+ASSIGNS(wp1->data.ptr, wp1->data.self, wp2->data.ptr, wp2->data.self)
+ENSURES(GP_OK(&wp1->data) && GP_OK(&wp2->data) && wp1->data.ptr == OLD(wp2->data.ptr) && wp2->data.ptr == OLD(wp1->data.ptr))
+;
+/* unique pointers exchange memory AND the clear function / private pointer that goes with it */
+static inline void cstl_unique_ptr_swap(cstl_unique_ptr_t * const up1, cstl_unique_ptr_t * const up2)
+REQUIRES(FRESH(up1, sizeof(*up1)) && GP_OK(&up1->gp) && FRESH(up2, sizeof(*up2)) && GP_OK(&up2->gp))
+ASSIGNS(up1->gp.ptr, up1->gp.self, up1->clr, up2->gp.ptr, up2->gp.self, up2->clr)
+ENSURES(GP_OK(&up1->gp) && GP_OK(&up2->gp) && up1->gp.ptr == OLD(up2->gp.ptr) && up2->gp.ptr == OLD(up1->gp.ptr))
+ENSURES(up1->clr.func == OLD(up2->clr.func) && up1->clr.priv == OLD(up2->clr.priv) &&
+        up2->clr.func == OLD(up1->clr.func) && up2->clr.priv == OLD(up1->clr.priv))
+;
+/* swapping an object with itself changes nothing */
+void vf_swap_self(cstl_shared_ptr_t * const sp)
+REQUIRES(FRESH(sp, sizeof(*sp)) && GP_OK(&sp->data))
+ASSIGNS(sp->data.ptr, sp->data.self)
+ENSURES(GP_OK(&sp->data) && sp->data.ptr == OLD(sp->data.ptr))
+;
+void vf_swap_self(cstl_shared_ptr_t * const sp) { cstl_shared_ptr_swap(sp, sp); }
+/* release: the memory and its clear function are handed to the caller, nothing is cleared or
+ * freed, the object is left as freshly initialised */
+static inline void * cstl_unique_ptr_release(cstl_unique_ptr_t * const up, cstl_xtor_func_t ** const clr, void ** priv)
+REQUIRES(FRESH(up, sizeof(*up)) && UP_WF(up))
+REQUIRES(vf_w_own ==> (FRESH(up->gp.ptr, vf_w_sz) && vf_w_sz >= 1 && vf_w_sz <= 4096))
+REQUIRES(!vf_w_own ==> up->gp.ptr == NULL)
+REQUIRES((vf_w_live ? FRESH(clr, sizeof(*clr)) : clr == NULL) && (vf_w_has_clr ? FRESH(priv, sizeof(*priv)) : priv == NULL))
+REQUIRES(vf_clr_calls == 0)
+ASSIGNS(up->gp.ptr, up->gp.self, up->clr; clr != NULL: *clr; priv != NULL: *priv)
+ENSURES(RESULT == OLD(up->gp.ptr) && (clr == NULL || *clr == OLD(up->clr.func)) && (priv == NULL || *priv == OLD(up->clr.priv)))
+ENSURES(GP_OK(&up->gp) && up->gp.ptr == NULL && up->clr.func == NULL && up->clr.priv == NULL && vf_clr_calls == 0)
+ENSURES(vf_w_own ==> __CPROVER_r_ok(RESULT, 1))
+;
+#endif
+
 #endif /* !VF_STRAY */
 
 /* ------------------------------------------------------------------ C20: stray (bitwise) copies
@@ -489,6 +535,13 @@ void h_wp_reset(void) { cstl_weak_ptr_t * wp; M_WIT_IN(); cstl_weak_ptr_reset(wp
 void h_share(void) { cstl_shared_ptr_t * e, * n; M_WIT_IN(); cstl_shared_ptr_share(e, n); VF_END(); }
 void h_weak_from(void) { cstl_shared_ptr_t * sp; cstl_weak_ptr_t * wp; M_WIT_IN(); cstl_weak_ptr_from(wp, sp); VF_END(); }
 void h_lock(void) { cstl_shared_ptr_t * sp; cstl_weak_ptr_t * wp; M_WIT_IN(); cstl_weak_ptr_lock(wp, sp); VF_END(); }
+#ifdef VF_G_swap
+void h_sp_swap(void) { cstl_shared_ptr_t * a, * b; cstl_shared_ptr_swap(a, b); VF_END(); }
+void h_wp_swap(void) { cstl_weak_ptr_t * a, * b; cstl_weak_ptr_swap(a, b); VF_END(); }
+void h_up_swap(void) { cstl_unique_ptr_t * a, * b; cstl_unique_ptr_swap(a, b); VF_END(); }
+void h_swap_self(void) { cstl_shared_ptr_t * a; vf_swap_self(a); VF_END(); }
+void h_up_release(void) { cstl_unique_ptr_t * up; cstl_xtor_func_t ** c; void ** p; M_WIT_IN(); VF_IN_BOOL(live); cstl_unique_ptr_release(up, c, p); VF_END(); }
+#endif
 void h_unique(void) { cstl_shared_ptr_t * sp; M_WIT_IN(); cstl_shared_ptr_unique(sp); VF_END(); }
 void h_get(void) { cstl_shared_ptr_t * sp; M_WIT_IN(); cstl_shared_ptr_get_const(sp); VF_END(); }
 /* closed scenario for the leak audit (C16): every malloc may fail independently */
